@@ -299,12 +299,17 @@ func (la *lockAnalysis) unexportedTypeMethodOnlyStatic(f *ssa.Function) bool {
 	if node == nil {
 		return false
 	}
+	cnt := 0
 	for _, e := range node.In {
+		if !la.p.InUniverse(e.Caller.Func) {
+			continue // CHA edges from library code that calls some interface's method of the same name (io.Closer in crypto/cipher …)
+		}
 		if e.Site == nil || e.Site.Common().StaticCallee() != f {
 			return false
 		}
+		cnt++
 	}
-	return len(node.In) > 0
+	return cnt > 0
 }
 
 // analyse computes the locksets of one function for its current entry lockset.
